@@ -257,6 +257,26 @@ def noop_trait_puts(oplist, leaf):
     return out
 
 
+def noop_empty_writes(oplist, leaf, consumer):
+    """indices of successful allocation writes whose entry for `consumer` is empty and whose write
+    transaction changed no allocation and no generation (the consumer had nothing left to clear)"""
+    out = []
+    for i, op in enumerate(oplist):
+        r = leaf['responses'][i]
+        if r is None or not ok(r.status):
+            continue
+        entries = [c for c in (([op['c']] if op['op'] == 'alloc_put' else op.get('cs', [])) if op['op'] in ('alloc_put', 'alloc_post') else [])
+                   if c['uuid'] == consumer]
+        if not entries or any(c['allocs'] for c in entries):
+            continue
+        ws = [st for (j, m, st) in leaf['trace'] if j == i and m == 'w']
+        if ws and not any(v in ('INSERT', 'UPDATE') or (v == 'DELETE' and t == 'allocations') for v, t in ws[-1]):
+            out.append(i)
+        elif ws and not any(v in ('INSERT', 'UPDATE') for v, t in ws[-1]):
+            out.append(i)
+    return out
+
+
 def monitors(props, start_snap, start_dump, oplist, leaf, serial_cache):
     out = []
     sts = [r.status if r is not None else None for r in leaf['responses']]
@@ -288,7 +308,9 @@ def monitors(props, start_snap, start_dump, oplist, leaf, serial_cache):
                 for key in consumer_gens(op):
                     if key in seen:
                         j = seen[key]
+                        noop = noop_empty_writes(oplist, leaf, key[0])
                         out.append(('c06:two-creators-both-succeed' if key[1] is None and key[0] not in start_dump['consumers']
+                                    else 'c06:noop-empty-write-accepted-with-stale-generation' if (i in noop or j in noop)
                                     else 'c06:two-successes-same-consumer-generation:%s' % ('null' if key[1] is None else 'int'),
                                     'requests %d and %d both succeeded carrying consumer_generation %s of %s' % (j, i, key[1], key[0])))
                     seen[key] = i
@@ -305,8 +327,11 @@ def monitors(props, start_snap, start_dump, oplist, leaf, serial_cache):
                 match = True
                 break
         if not match:
-            # a PUT traits that changed nothing but was accepted with a stale generation?
-            noop = noop_trait_puts(oplist, leaf)
+            # a PUT traits / an empty allocation write that changed nothing but was accepted with a
+            # stale generation?
+            noop_t = noop_trait_puts(oplist, leaf)
+            noop_e = sorted({i for op in oplist for u in set(named_consumers(op)) for i in noop_empty_writes(oplist, leaf, u)})
+            noop = noop_t + [i for i in noop_e if i not in noop_t]
             if noop:
                 succ2 = [i for i in succ if i not in noop]
                 for order in itertools.permutations(succ2):
@@ -318,8 +343,9 @@ def monitors(props, start_snap, start_dump, oplist, leaf, serial_cache):
                         match = True
                         break
                 if match:
-                    out.append(('c07:noop-traits-put-accepted-with-stale-generation',
-                                'statuses %s: serializable only without the no-op PUT traits request(s) %s' % (sts, noop)))
+                    out.append(('c07:noop-traits-put-accepted-with-stale-generation' if noop_t else
+                                'c07:noop-empty-write-accepted-with-stale-generation',
+                                'statuses %s: serializable only without the no-op request(s) %s' % (sts, noop)))
         if not match:
             # classify
             d = leaf['dump']
